@@ -15,17 +15,21 @@ SI == << A(145, "indirect_register", FALSE, FALSE), A(146, "indirect_indexed_reg
 SJ == << A(161, "indirect_register", FALSE, FALSE), A(162, "indirect_register", TRUE, FALSE) >>
 SK == << A(178, "numeric", FALSE, FALSE), A(177, "numeric", FALSE, FALSE), A(179, "register", FALSE, FALSE) >>
 SL == << A(193, "numeric", FALSE, FALSE), A(194, "register", FALSE, FALSE), A(195, "register_pp", FALSE, FALSE), A(196, "register_at", FALSE, FALSE) >>
-Sets1 == {SA, SB, SC, SD, SE, SF, SG, SH, SI, SJ, SK, SL}
+SM == << A(241, "numeric", FALSE, FALSE), A(242, "indirect_register_pre", FALSE, FALSE), A(243, "indirect_register", FALSE, FALSE) >>
+SN == << A(225, "numeric_va", FALSE, FALSE), A(226, "register", FALSE, FALSE) >>
+Sets1 == {SA, SB, SC, SD, SE, SF, SG, SH, SI, SJ, SK, SL, SM, SN}
 V(spec, sets, dis) == [spec |-> spec, sets |-> sets, dis |-> dis]
 SpReg == << A(200, "register", FALSE, FALSE) >>
 SpNum == << A(201, "numeric", FALSE, FALSE) >>
 SpInd == << A(202, "indirect_register", TRUE, FALSE) >>
 SpEmpty == << A(205, "empty", FALSE, FALSE) >>
+SpNumVa == << A(206, "numeric_va", FALSE, FALSE) >>
+SpPre == << A(207, "indirect_register_pre", FALSE, FALSE) >>
 \* one-operand variants
-Pool1 == { V(sp, <<s>>, {}) : sp \in {<<>>, <<SpReg>>, <<SpNum>>, <<SpInd, SpReg>>, <<SpEmpty>>, <<SpEmpty, SpInd, SpReg>>, <<SpNum, SpEmpty>>}, s \in Sets1 }
+Pool1 == { V(sp, <<s>>, {}) : sp \in {<<>>, <<SpReg>>, <<SpNum>>, <<SpInd, SpReg>>, <<SpEmpty>>, <<SpEmpty, SpInd, SpReg>>, <<SpNum, SpEmpty>>, <<SpNumVa, SpReg>>, <<SpPre>>}, s \in Sets1 }
          \cup { V(<<SpReg>>, <<>>, {}), V(<<SpNum, SpReg>>, <<>>, {}), V(<<SpEmpty, SpReg>>, <<>>, {}) }
 \* "void": an operand slot with nothing in it (a stray, doubled or leading comma) - no alternative accepts it and it still counts as a slot
-Texts1 == { <<>>, <<"num", "void">>, <<"void", "num">>, <<"r", "void">>, <<"void", "r">> } \cup { <<t>> : t \in {"r", "r2", "[r]", "[r+n]", "[n]", "[[n]]", "r+n", "key", "num", "lab", "{n}", "hexa", "chra", "r++", "@r"} }
+Texts1 == { <<>>, <<"num", "void">>, <<"void", "num">>, <<"r", "void">>, <<"void", "r">> } \cup { <<t>> : t \in {"r", "r2", "[r]", "[r+n]", "[n]", "[[n]]", "r+n", "key", "num", "lab", "{n}", "hexa", "chra", "r++", "@r", "-[r]"} }
 \* two-operand variants
 Sp2 == << A(210, "register", FALSE, FALSE), A(211, "numeric", FALSE, FALSE) >>
 Pool2 == { V(sp, <<s1, s2>>, d) : sp \in {<<>>, <<Sp2>>}, s1 \in {SA, SE, SC}, s2 \in {SA, SD, SH},
